@@ -14,18 +14,185 @@ def P(level, rule, quick, thorough, assumptions=None, floors=None, **kw):
     return d
 
 
+GEN = ("seeded generator of (schema, dataset, query, arguments): the fixed rich schema VS (65 % of blocks) and random valid schemas; "
+       "queries valid by construction against the documented rules (depth <= 4, <= 10 vertices; all directives, 20 filter operators, "
+       "variables and tags from every legal place, fold-count filters/outputs/tags), compiled by the real frontend; ")
+
 PROPS = {
     "C01": P("exploration",
-             "seeded generator of (schema, dataset, query, arguments): fixed rich schema VS (65 %) and random valid schemas; "
-             "every accepted query is run through the real engine over the lazy GraphAdapter and compared, as a multiset of rows "
+             GEN + "every accepted query is run through the real engine over the lazy GraphAdapter and compared, as a multiset of rows "
              "(fold elements compared order-insensitively but aligned across outputs), with the naive reference evaluator R. "
              "distinct_nontrivial = distinct directive skeletons among compared cases with >= 1 row and >= 2 language features",
-             quick={"cases": 700, "timeout": 300},
-             thorough={"cases": 40000, "timeout": 1500},
-             floors={"evaluations": 2000, "distinct": 200, "counters": {"compared_with_rows": 500}}),
+             quick={"cases": 1500, "timeout": 300},
+             thorough={"cases": 120000, "timeout": 1800},
+             floors={"evaluations": 2000, "distinct": 200, "counters": {"compared_with_rows": 500}},
+             technique="reference-model runtime monitor (differential against a naive declarative evaluator)"),
+    "C02": P("exploration",
+             GEN + "each case is executed unbatched and under N order-preserving read-ahead schedules (eager first chunk inside the resolver call as in "
+             "issue #205, lazy chunks of 1-5, prefetch-all, look-ahead-one, mixed per call; neighbor iterators optionally materialised); "
+             "row *sequences* must be identical and no panic may occur. An EventLog at the adapter boundary records pull-in/yield-out events; "
+             "distinct_nontrivial = distinct interleavings (hash of the event-kind sequence) observed",
+             quick={"cases": 400, "timeout": 300, "args": ["--schedules", "5"]},
+             thorough={"cases": 20000, "timeout": 1800, "args": ["--schedules", "15"]},
+             floors={"evaluations": 1000, "distinct": 500, "counters": {"cases_with_3_or_more_resolver_calls": 300}},
+             technique="metamorphic runtime monitor over adapter pull schedules, event log at the adapter boundary"),
+    "C03": P("exploration",
+             GEN + "VS only, start sets without duplicates, every query outputs the root's unique id; a counting observer at the source checks after "
+             "*every* next(): nothing pulled before the first row is requested; pulled <= index of the contributing start vertex + 1; and no "
+             "adapter-boundary event after the result iterator is dropped at a prefix. distinct_nontrivial = distinct (skeleton, #starts) with >= 2 rows and >= 3 starts",
+             quick={"cases": 600, "timeout": 300},
+             thorough={"cases": 40000, "timeout": 1800, "args": ["--max-vertices", "40"]},
+             floors={"evaluations": 1000, "distinct": 100, "counters": {"prefixes_checked": 1000, "early_drops_checked": 100}},
+             technique="counting monitor at the data source (adapter boundary), checked at every prefix of the result stream"),
+    "C04": P("exploration",
+             GEN + "biased to filters with variables and tags; each case runs with the plain GraphAdapter and with PruningAdapter, which asks at "
+             "resolve_starting_vertices and every resolve_neighbors for statically_required_property / dynamically_required_property(..).resolve / "
+             "mandatory_edges_with_name on every property and edge (recursively through mandatory edges) and discards every vertex the hints exclude "
+             "(membership decided by the harness's own candidate model); row sequences must be identical. '>=' with a tag operand is excluded from the "
+             "random stream and replayed from its committed witnesses (listed known finding). distinct_nontrivial = distinct skeletons of cases in which pruning removed >= 1 vertex",
+             quick={"cases": 1000, "timeout": 300},
+             thorough={"cases": 80000, "timeout": 1800},
+             floors={"evaluations": 2000, "distinct": 200, "counters": {"vertices_pruned": 1000, "hint:dynamic:Range": 50, "hint:mandatory-edge": 200}},
+             technique="metamorphic runtime monitor with an adversarially eager hint-consuming adapter"),
+    "C05": P("exploration",
+             GEN + "biased to tags consumed in other components and fold-count filters; an observer at the adapter boundary checks for every "
+             "resolve_property(type, p, info) that p is in info.required_properties() and in every list reported earlier for the same Vid "
+             "(ResolveInfo of resolve_starting_vertices / resolve_coercion, ResolveEdgeInfo::destination()). distinct_nontrivial = distinct skeletons with >= 3 property calls",
+             quick={"cases": 600, "timeout": 300},
+             thorough={"cases": 60000, "timeout": 1800},
+             floors={"evaluations": 2000, "distinct": 200, "counters": {"resolve_property_calls_checked": 20000}},
+             technique="invariant monitor at the adapter boundary"),
+    "C09": P("exploration",
+             GEN + "hostile arguments (invalid regexes, count operands negative / > i64::MAX / u64::MAX, list operands of ordering filters); "
+             "every accepted (query, arguments) is executed to exhaustion under catch_unwind with a panic hook; a second pass runs in plain release "
+             "(no debug assertions) in the thorough tier; worker aborts are attributed to the announced case. distinct_nontrivial = distinct skeletons executed",
+             quick={"cases": 2500, "timeout": 300},
+             thorough={"cases": 150000, "timeout": 1800, "plainrel": 40000},
+             floors={"evaluations": 5000, "distinct": 500, "counters": {"executed_ok": 4000}},
+             crash_is_violation=True,
+             technique="panic monitor (catch_unwind + panic hook + worker-crash detection) over a hostile workload"),
+    "C11": P("exploration",
+             GEN + "every compiled query is walked by an invariant checker written from the comment block in ir/indexed.rs and the IR doc comments "
+             "(edge i -> vertex i+1, one component per vertex/edge, complete vids/eids indexes, folds before contents, eid intervals, from<to, tags "
+             "defined at vid <= use in an enclosing component, imported_tags exactly the enclosing component's tags used inside the fold without "
+             "duplicates, variables recorded with compatible types and equal to the harness's independent derivation, outputs unique and local). "
+             "distinct_nontrivial = distinct skeletons with >= 2 features",
+             quick={"cases": 2500, "timeout": 300},
+             thorough={"cases": 150000, "timeout": 1800},
+             floors={"evaluations": 5000, "distinct": 500, "counters": {"compiled_queries_checked": 4000}},
+             technique="structural invariant monitor on every compiled query"),
+    "C12": P("exploration",
+             GEN + "for every compiled query with variables: the correct map, every single deletion, extra names, per variable 6 values from a 33-value "
+             "hostile pool (every kind incl. Enum, nesting, inner nulls, mixed integer lists) and combinations of several errors; acceptance must equal "
+             "(all declared supplied and fits(declared type, value), no undeclared name) with the harness's own fits(), and the error must name exactly "
+             "the offending variables. distinct_nontrivial = distinct variable-type signatures with both accepted and refused maps",
+             quick={"cases": 600, "timeout": 300},
+             thorough={"cases": 50000, "timeout": 1800},
+             floors={"evaluations": 2000, "distinct": 100, "counters": {"argument_maps_checked": 50000, "maps_accepted": 2000}},
+             technique="reference-model runtime monitor on argument validation"),
+    "C13": P("exploration",
+             GEN + "for every accepted query: declared output names and types must equal the harness's derivation from the AST (nullable below "
+             "@optional, one list level per enclosing fold, that level nullable iff the fold's origin is optional, count = Int! wrapped alike); every "
+             "row's key set must equal the declared names and every value must fit its declared type (own fits()). distinct_nontrivial = distinct "
+             "skeletons with rows and >= 1 nullable or folded output",
+             quick={"cases": 1500, "timeout": 300},
+             thorough={"cases": 100000, "timeout": 1800},
+             floors={"evaluations": 5000, "distinct": 300, "counters": {"rows_checked": 20000}},
+             technique="invariant monitor on every result row"),
+    "C15": P("exploration",
+             GEN + "each case is executed directly and through AdapterTap + tap_results; rows must be equal; the Trace is serialised to RON (the "
+             "repository's trace format) and back and must be identical; assert_interpreted_results replays the deserialised trace to the same rows "
+             "with the dataset out of reach. distinct_nontrivial = distinct skeletons with >= 10 trace ops and >= 1 row",
+             quick={"cases": 500, "timeout": 300},
+             thorough={"cases": 25000, "timeout": 1800},
+             floors={"evaluations": 2000, "distinct": 200, "counters": {"trace_ops_replayed": 100000}},
+             technique="round-trip runtime monitor (record, serialise, replay)"),
+    "C21": P("exploration",
+             GEN + "biased to recursion with explicit/implicit coercion, folds in optionals and parameter defaults; a ContractMonitor holding the "
+             "schema model checks every adapter call (type defined, property/edge defined on it or __typename, starting edge is a root field, coercion "
+             "source is an interface and target implements it, parameter names exactly the declared ones with fitting values) and every context pulled "
+             "(active vertex is an instance of type_name). distinct_nontrivial = distinct skeletons with >= 4 adapter calls",
+             quick={"cases": 1000, "timeout": 300},
+             thorough={"cases": 80000, "timeout": 1800},
+             floors={"evaluations": 3000, "distinct": 300, "counters": {"adapter_calls_checked": 50000, "contexts_checked": 50000}},
+             technique="invariant monitor at the adapter boundary"),
+    "C22": P("exploration",
+             GEN + "restricted to queries with fold-count filters (all comparison operators, 1-2 per fold, operands of any sign/magnitude, tags of "
+             "properties and of other folds' counts), nested folds below, counts tagged and used in siblings; oracles: (i) the reference evaluator R; "
+             "(ii) metamorphic: Q vs Q+ which additionally outputs every fold's count and an inner value - projecting the new outputs away the rows must "
+             "be identical. distinct_nontrivial = distinct skeletons with count filters and >= 1 row",
+             quick={"cases": 1200, "timeout": 300},
+             thorough={"cases": 80000, "timeout": 1800},
+             floors={"evaluations": 5000, "distinct": 150, "counters": {"queries_with_count_filters": 4000, "with_nested_folds": 1000}},
+             technique="reference-model + metamorphic runtime monitor"),
+    "C23": P("exploration",
+             GEN + "nine relations (add filter => subset; raise @recurse depth => superset; plain->@optional => superset; ge_<prop> parameter == "
+             "filter; '= $x' == one_of [$x]; F / not-F partition outside optional scopes; rename outputs/tags/aliases; permute properties; permute "
+             "edges when no tags) each applied only where the declarative semantics entails it; engine vs engine on row multisets; a pair on which R "
+             "also breaks the relation is counted as a relation-scope bug of the harness, never as a violation. distinct_nontrivial = distinct (relation, skeleton) pairs with rows",
+             quick={"cases": 250, "timeout": 400},
+             thorough={"cases": 15000, "timeout": 1800},
+             floors={"evaluations": 2000, "distinct": 500, "counters": {"pairs_checked": 5000, "held-with-rows:raise-recurse-depth": 30,
+                                                                          "held-with-rows:param-edge-as-filter": 30, "held-with-rows:make-optional": 30}},
+             technique="metamorphic runtime monitor"),
 }
 
-CUSTOM = {}
+PROPS["C14"] = P("exploration",
+    GEN + "plus two invalid variants per query with several simultaneous frontend errors, plus schema documents with several simultaneous "
+    "errors. Each (schema text, query text, arguments) is observed 3x in-process starting from a fresh Schema::parse (serialised IR, declared "
+    "outputs, error Debug + RON, row sequence, adapter-boundary event sequence) and all workers run the SAME seed in separate processes "
+    "(std's RandomState is seeded per process): the driver compares the per-case digests of all processes. distinct_nontrivial = distinct "
+    "skeletons of executed cases with rows",
+    quick={"cases": 250, "timeout": 400, "workers": 6},
+    thorough={"cases": 6000, "timeout": 1800, "workers": 16},
+    floors={"evaluations": 200, "distinct": 50},
+    technique="event-log comparison across repetitions and across processes")
+
+
+def c14_driver(chk, pid, tier, seed, spec, t0):
+    import os, time
+    binary = chk.build()
+    if binary is None:
+        print(f"INCONCLUSIVE property={pid} reason=harness build failed")
+        return 2
+    t = spec[tier]
+    workers = t["workers"]
+    results = chk.run_workers(binary, pid, pid, seed, workers, t["cases"], t["timeout"], same_seed=True)
+    m = chk.merge(results)
+    m["binary"] = binary
+    # all processes ran the same cases: counts are per process, not summed
+    per = [r["report"] for r in results if r["report"]]
+    if per:
+        m["evaluations"] = per[0].get("evaluations", 0)
+        m["counters"] = dict(per[0].get("counters", {}))
+    digs = [r["report"].get("digests", []) for r in results if r["report"]]
+    notes = {"processes": len(digs), "digests_per_process": len(digs[0]) if digs else 0}
+    if len(digs) < 2 or not digs[0]:
+        m["inconclusive"].append("fewer than two processes produced digests")
+    else:
+        ref = digs[0]
+        mismatches = []
+        for k, d in enumerate(digs[1:], 1):
+            if len(d) != len(ref):
+                mismatches.append((k, -1))
+                continue
+            for i, (a, b) in enumerate(zip(ref, d)):
+                if a != b:
+                    mismatches.append((k, i))
+                    break
+        notes["cross_process_mismatches"] = len(mismatches)
+        if mismatches:
+            os.makedirs(os.path.join(chk.REPLAYS, pid), exist_ok=True)
+            path = os.path.join(chk.REPLAYS, pid, "cross-process-mismatch.txt")
+            with open(path, "w") as f:
+                f.write(f"seed {seed}: processes disagree on the digest of observation index (process, index): {mismatches}\n"
+                        f"re-run: tfv C14 --seed {seed} --cases {t['cases']} twice and diff the 'digests' arrays\n")
+            m["violations"].append({"signature": "C14:cross-process-nondeterminism",
+                                    "what": f"digest mismatch between processes at {mismatches[:3]}", "replay": path})
+    return chk.finish(pid, tier, seed, spec, t0, m, notes)
+
+
+CUSTOM = {"C14": c14_driver}
 
 # reasons for properties that are not claimed (kept current; empty when everything is claimed)
 NOT_CLAIMED = {}
